@@ -24,6 +24,7 @@ import YorkieModel.Driver.SrvEngine
 import YorkieModel.Driver.UndoEngine
 import YorkieModel.Driver.TextUndoEngine
 import YorkieModel.Driver.TreeUndoEngine
+import YorkieModel.Driver.LockerEngine
 open Yorkie.Driver
 
 def engines : List (String × Engine) := [
@@ -49,7 +50,7 @@ def engines : List (String × Engine) := [
   ("fdoc", FDocEngine.engine), ("json", JsonEngine.engine),
   ("pubsub", PubSubEngine.engine), ("pubsubstress", PubSubEngine.engine), ("tree", TreeEngine.engine), ("conc", ConcEngine.engine), ("srv", SrvEngine.engine),
   ("compact", ProtoEngine.X.engine), ("faults", ProtoEngine.X.engine), ("undo", UndoEngine.engine),
-  ("textundo", TextUndoEngine.engine), ("treeundo", TreeUndoEngine.engine)
+  ("textundo", TextUndoEngine.engine), ("treeundo", TreeUndoEngine.engine), ("locker", LockerEngine.engine)
 ]
 
 partial def loop (e : Engine) (h : IO.FS.Stream) (out : IO.FS.Stream) (st : e.State) : IO Unit := do
